@@ -107,6 +107,10 @@ def oracle : Oracle := fun name args =>
     -- the modulus is the prime p of the curve in every translated call: Fermat
     [.int (Int.ofNat (powMod (a % m).toNat (m.toNat - 2) m.toNat))]
   | "fmt.Errorf", _ => [.int 1]
+  | "io.ReadFull", [.int r, .int n] =>
+    -- the "reader" is an integer: its n-byte big-endian encoding is what every read returns
+    let bs := natToBytes r.toNat
+    [.arr (List.replicate (n.toNat - bs.length) (.int 0) ++ bs), .int n, .int 0]
   | _, _ => []
 
 def fuel : Nat := 100000000
